@@ -70,15 +70,17 @@ def fieldHasTy (s : Scheme) (name : List Char) (t : Ty) : Bool :=
   | some (.field i) => s.fieldTy i == t
   | _ => false
 
-/-- a valid identifier that `lex_simple_expr` does not take for `not…` (the unary-operator lexer
-looks for no word boundary: a field whose name starts with `not` cannot be written at the start
-of an operand) -/
-def nameGood (name : List Char) : Bool := nameOk name && !("not".toList.isPrefixOf name)
+/-- a valid identifier other than the word `not` itself. A REGISTERED name that merely begins
+with `not` (`notes`, `not_b`) is fine: `LogicalExpr::lex_unary_op` does not take the operator
+when the glued characters complete a registered name. The bare word `not` always is the
+operator (nothing is glued to it), so a field literally called `not` cannot be written at the
+start of an operand. -/
+def nameGood (name : List Char) : Bool := nameOk name && name != "not".toList
 
 /-- **side conditions** (decidable).
-* `boolField`: valid name not starting with `not`, not exactly `any`/`all` (those followed by
+* `boolField`: valid name, not exactly `not`, not exactly `any`/`all` (those followed by
   ` (` would be a quantifier call), a `Bool` field of the scheme;
-* `cmp`: valid name not starting with `not`; a field of the literal's type; `ws₁`, `ws₂` are
+* `cmp`: valid name, not exactly `not`; a field of the literal's type; `ws₁`, `ws₂` are
   layout; a word spelling needs `ws₁ ≠ []` (`ieq 5` is the identifier `ieq`), a symbol does not;
   the literal's own conditions (`Lit.ok`). -/
 def CAtom.ok (s : Scheme) : CAtom → Bool
@@ -94,17 +96,18 @@ def atoms (s : Scheme) : Atoms CAtom := { txt := CAtom.txt, node := CAtom.node s
 /-! ### lemmas -/
 
 theorem CAtom.ok_boolField {s : Scheme} {name : List Char} (hname : nameOk name = true)
-    (hnot : "not".toList.isPrefixOf name = false) (hany : name ≠ "any".toList)
+    (hnot : name ≠ "not".toList) (hany : name ≠ "any".toList)
     (hall : name ≠ "all".toList) (hfield : fieldHasTy s name .bool = true) :
     (CAtom.boolField name).ok s = true := by
+  have e0 : (name != "not".toList) = true := bne_iff_ne.mpr hnot
   have e1 : (name != "any".toList) = true := bne_iff_ne.mpr hany
   have e2 : (name != "all".toList) = true := bne_iff_ne.mpr hall
   simp only [CAtom.ok, nameGood]
-  rw [hname, hnot, hfield, e1, e2]
+  rw [hname, e0, hfield, e1, e2]
   rfl
 
 theorem CAtom.ok_cmp {s : Scheme} {name : List Char} {ws₁ ws₂ : Input} {op : OrdOp} {sym : Bool}
-    {lit : Lit} (hname : nameOk name = true) (hnot : "not".toList.isPrefixOf name = false)
+    {lit : Lit} (hname : nameOk name = true) (hnot : name ≠ "not".toList)
     (hfield : fieldHasTy s name lit.ty = true) (h₁ : Layout ws₁ = true) (h₂ : Layout ws₂ = true)
     (hsep : sym = true ∨ ws₁ ≠ []) (hlit : lit.ok = true) :
     (CAtom.cmp name ws₁ op sym ws₂ lit).ok s = true := by
@@ -114,8 +117,9 @@ theorem CAtom.ok_cmp {s : Scheme} {name : List Char} {ws₁ ws₂ : Input} {op :
     · cases ws₁ with
       | nil => exact absurd rfl h
       | cons _ _ => simp
+  have e0 : (name != "not".toList) = true := bne_iff_ne.mpr hnot
   simp only [CAtom.ok, nameGood]
-  rw [hname, hnot, hfield, h₁, h₂, this, hlit]
+  rw [hname, e0, hfield, h₁, h₂, this, hlit]
   rfl
 
 theorem fieldHasTy_spec {s : Scheme} {name : List Char} {t : Ty}
@@ -130,8 +134,12 @@ theorem fieldHasTy_spec {s : Scheme} {name : List Char} {t : Ty}
   · cases h
 
 theorem nameGood_spec {name : List Char} (h : nameGood name = true) :
-    nameOk name = true ∧ "not".toList.isPrefixOf name = false := by
+    nameOk name = true ∧ name ≠ "not".toList := by
   simpa [nameGood] using h
+
+theorem fieldHasTy_registered {s : Scheme} {name : List Char} {t : Ty}
+    (h : fieldHasTy s name t = true) : (s.get name).isSome = true := by
+  rw [(fieldHasTy_spec h).1]; rfl
 
 /-- `ComparisonExpr::lex_with` on a bare boolean field, any valid name -/
 theorem boolField_parses_name (env : PEnv) (lower : Option Level) {name rest : Input}
@@ -226,7 +234,8 @@ theorem goodAtom (env : PEnv) (tight : Bool) (a : CAtom) (h : a.ok env.scheme = 
     obtain ⟨hn, hnot⟩ := nameGood_spec hg
     exact
       { parses := fun n rest hs => boolField_parses_name env _ hn hf (stop_idStop hs)
-        noUnary := fun rest hs => name_noUnary hn hnot (stop_idStop hs)
+        noUnary := fun rest hs =>
+          name_noUnary env hn (fieldHasTy_registered hf) hnot (stop_idStop hs)
         noQuant := fun rest hs => name_noQuant hn (stop_idStop hs)
           (fun hq => by
             rcases hq with hq | hq
@@ -249,7 +258,8 @@ theorem goodAtom (env : PEnv) (tight : Bool) (a : CAtom) (h : a.ok env.scheme = 
           simp only [hty]
           exact cmpWithLhs_ord env _ h₁ h₂ op sym lit hlit rest hs
         noUnary := fun rest _ => by
-          rw [eq]; exact name_noUnary hn hnot (cmp_idStop h₁ op sym hsep _)
+          rw [eq]
+          exact name_noUnary env hn (fieldHasTy_registered hf) hnot (cmp_idStop h₁ op sym hsep _)
         noQuant := fun rest _ => by
           rw [eq]
           exact name_noQuant hn (cmp_idStop h₁ op sym hsep _) (fun _ => cmp_noParen h₁ op sym _)
@@ -287,7 +297,7 @@ theorem canon_core (s : Scheme) (sk : Sk CAtom) :
 /-- whole filters over concrete atoms -/
 theorem filter_concrete (env : PEnv) (tight : Bool) (sk : Sk CAtom)
     (hok : allAtoms (CAtom.ok env.scheme) sk = true) (s : Input)
-    (hr : Renders (atoms env.scheme) tight sk s) (hd : depth sk ≤ env.st.maxDepth)
+    (hr : Renders env (atoms env.scheme) tight sk s) (hd : depth sk ≤ env.st.maxDepth)
     (htrim : trim s = s) : parseFilter env s = .ok (canon (atoms env.scheme) sk) :=
   filter_on env (atoms env.scheme) tight (CAtom.ok env.scheme) (fun a h => goodAtom env tight a h)
     sk hok s hr hd htrim
